@@ -20,8 +20,8 @@ RUNS = {"C15": 30, "C17": 12, "C11": 30, "C12": 30}
 
 def digests(cid, seed, n, hashseed, workers):
     env = dict(os.environ)
-    env["VERIF_HASHSEED"] = hashseed
-    env["PYTHONHASHSEED"] = hashseed
+    env["VERIF_HASHSEED"] = hashseed if hashseed != "random" else str(__import__("random").SystemRandom().randrange(1, 2 ** 31))
+    env.pop("PYTHONHASHSEED", None)
     env["VERIF_SEED"] = str(seed)
     p = subprocess.run([PY, "-m", "sim.check", cid, "--digests", str(n), "--workers", str(workers)],
                        cwd=VERIF, env=env, capture_output=True, text=True, timeout=3600)
